@@ -66,7 +66,7 @@ class Harness:
     srcs: harness .cc files (relative to /verif); sdk_srcs: repo-relative .cc files compiled with it;
     flags: extra flags; pre_include: a header forced in front (Engine D shim)."""
 
-    def __init__(self, name, srcs, sdk_srcs=(), flags=(), includes=('api/include',), libs=('-pthread',), sdk_flags=()):
+    def __init__(self, name, srcs, sdk_srcs=(), flags=(), includes=('api/include',), libs=('-pthread',), sdk_flags=(), plain_srcs=()):
         self.name = name
         self.srcs = list(srcs)
         self.sdk_srcs = list(sdk_srcs)
@@ -74,6 +74,7 @@ class Harness:
         self.includes = list(includes)
         self.libs = list(libs)
         self.sdk_flags = list(sdk_flags)
+        self.plain_srcs = list(plain_srcs)   # /verif-relative sources compiled with BASE_FLAGS only (e.g. the scheduler)
 
 
 class BuildError(Exception):
@@ -128,6 +129,7 @@ def build_harness(h: Harness, repo=None):
     incs = ['-I' + os.path.join(repo, i) for i in h.includes] + ['-I' + os.path.join(VERIF, 'harness')]
     jobs = [(os.path.join(VERIF, s), BASE_FLAGS + h.flags) for s in h.srcs]
     jobs += [(os.path.join(repo, s), BASE_FLAGS + h.flags + h.sdk_flags) for s in h.sdk_srcs]
+    jobs += [(os.path.join(VERIF, s), BASE_FLAGS) for s in h.plain_srcs]
     t0 = time.time()
     with ThreadPoolExecutor(max_workers=16) as ex:
         futs = [ex.submit(_compile_obj, s, f, incs) for s, f in jobs]
@@ -253,7 +255,7 @@ def run_lines(exe, lines, env_extra=None, timeout=None):
         data = ('\n'.join(chunk) + '\n').encode()
         try:
             p = subprocess.run([exe], input=data, stdout=subprocess.PIPE, stderr=subprocess.PIPE, env=env,
-                               timeout=timeout or max(120, 0.05 * len(chunk)))
+                               timeout=timeout or max(90, 0.02 * len(chunk)))
             rc, so, se = p.returncode, p.stdout, p.stderr
         except subprocess.TimeoutExpired as e:
             rc, so, se = -999, e.stdout or b'', (e.stderr or b'') + b'\nTIMEOUT'
